@@ -1497,7 +1497,7 @@ Proof.
     destruct (b_q s) as [|[op|id] rest]; [exists []; now rewrite app_nil_r|eexists; reflexivity|].
     destruct (b_out s); exists []; cbn; now rewrite app_nil_r.
   - destruct (zmem op (b_out s)); [|exists []; now rewrite app_nil_r].
-    destruct (zremove op (b_out s)); [destruct a|]; eexists; reflexivity.
+    destruct (zremove op (b_out s)); [destruct a; [|destruct (b_notifs s)]|]; eexists; reflexivity.
   - destruct (b_wake s); exists []; cbn; now rewrite app_nil_r.
   - destruct (zmem id (b_fired s)); [eexists; reflexivity|exists []; now rewrite app_nil_r].
 Qed.
